@@ -58,6 +58,9 @@ WidthShapes == {<<"altbits", b>> : b \in {1, 7, 8, 9, 15, 16, 17, 24, 31, 32, 33
                \cup {<<"pow2", p>> : p \in {0, 21, 42}} \cup {<<"ascw", p>> : p \in {0, 5}}
 OrderShapes == {<<"desc", 0>>, <<"desc16", 0>>, <<"asc16", 0>>, <<"asc16dup", 0>>}
 RepeatShapes == {<<"runs", r>> : r \in {1, 2, 240, 241}} \cup {<<"fewuniq", k>> : k \in {2, 3, 255, 256, 257}}
+\* a run whose LENGTH sits on a length class of the tagged varint that stores it (2287/2288), followed by another run
+RunBoundaryShapes == {<<"runs", r>> : r \in {2286, 2287, 2288}}
+RunCodecs == {"rle", "rle_hdr", "adaptive", "dict", "delta_u", "bpd64"}
 WideShapes == {<<"nine", 0>>, <<"max64", 0>>, <<"rand64", 0>>, <<"rand32", 0>>, <<"rand8", 0>>}
 \* marker: offset width (w % 3 + 1 bytes) x position of the minimum (w \div 3: first, last, middle)
 PatchShapes == {<<"marker", w>> : w \in 0..8} \cup {<<"outfirst", 0>>, <<"outlast", 0>>}
@@ -85,7 +88,7 @@ MinedCodecs == {<<"for", 0>>, <<"pfor", 95>>, <<"delta_u", 0>>, <<"bp64", 0>>, <
 \* neighbours exactly 2^63, 2^63 -+ 1, 2^62 apart (bits 0-1), from 0 or 5 (bit 2), ascending or descending (bit 3)
 HalfStepShapes == {<<"halfstep", p>> : p \in 0..15}
 DeltaCodecs == {"delta_u", "delta_s", "adaptive", "bpd64", "for", "pfor", "bp64", "edelta"}
-AllShapes == HalfStepShapes \cup MinedShapes \cup CoreShapes \cup WidthShapes \cup OrderShapes \cup RepeatShapes \cup WideShapes
+AllShapes == RunBoundaryShapes \cup HalfStepShapes \cup MinedShapes \cup CoreShapes \cup WidthShapes \cup OrderShapes \cup RepeatShapes \cup WideShapes
              \cup PatchShapes \cup SamplerShapes \cup MinAtShapes \cup ZeroBlockShapes
 P(sh, i) == IF Len(sh) >= i + 1 THEN sh[i + 1] ELSE 0
 HeaderCodecs == {"for", "for_batch", "pfor", "delta_u", "delta_s", "adaptive"}
@@ -102,6 +105,7 @@ Applicable(c, n, s) ==
          /\ \/ s \in WorstShapes
             \* size predictors add up tagged lengths of minima, dictionary entries, run values: exactly 2^24, 2^32, ...
             \/ s \in MinAtShapes /\ n \in {2, 17} /\ c[1] \in (HeaderCodecs \cup {"dict", "dict_with", "rle", "rle_hdr"})
+            \/ s \in RunBoundaryShapes /\ n \in {2288, 2289, 4097} /\ c[1] \in {"rle", "rle_hdr"}
          /\ (s[1] = "periodic" => (c[1] = "adaptive" /\ n >= 2287))
          /\ (n > 4097 => s \in {<<"nine", 0>>, <<"outlast", 0>>, <<"periodic", 10>>})
          /\ ((s[1] = "altbits" /\ s[2] # 64) => n \in CoreLensOf(c))
@@ -114,11 +118,13 @@ Applicable(c, n, s) ==
             \/ c[1] \in {"rle", "rle_hdr", "dict", "adaptive"} /\ n \in {241, 2288} /\ s \in RepeatShapes
             \/ c[1] \in HeaderCodecs /\ n \in {2, 17, 241} /\ s \in MinAtShapes
             \/ c[1] \in DeltaCodecs /\ n \in {2, 3, 17} /\ s \in HalfStepShapes
+            \/ c[1] \in RunCodecs /\ n \in {2288, 2289, 4097} /\ s \in RunBoundaryShapes
             \/ c \in MinedCodecs /\ n = 17 /\ s \in MinedShapes /\ Purpose \in {"c02", "c06", "c16"}
             \/ c[1] \in BlockCodecs /\ n \in {128, 129, 130, 256, 257, 385} /\ s \in ZeroBlockShapes
          /\ (s \in MinAtShapes \/ ~(s \in MinedShapes) \/ (c \in MinedCodecs /\ n = 17 /\ Purpose \in {"c02", "c06", "c16"}))
          /\ (s \in MinAtShapes => c[1] \in HeaderCodecs /\ n \in {2, 17, 241})
          /\ (s \in HalfStepShapes => c[1] \in DeltaCodecs /\ n \in {2, 3, 17})
+         /\ (s \in RunBoundaryShapes => c[1] \in RunCodecs /\ n \in {2288, 2289, 4097})
          /\ (s \in ZeroBlockShapes => c[1] \in BlockCodecs /\ n \in {128, 129, 130, 256, 257, 385})
          /\ (s[1] = "periodic" => n >= 2287)
          /\ (n > 4097 => s \in CoreShapes \cup SamplerShapes \cup OrderShapes \cup {<<"fewuniq", 3>>, <<"cluster", 49>>})
@@ -134,8 +140,9 @@ PickShape == /\ stage = 2 /\ stage' = 3
              /\ shape' \in {s \in AllShapes : Applicable(codec, len, s)}
              /\ PrintT(<<"SCEN", codec[1], codec[2], len, shape'[1], shape'[2], P(shape', 2), P(shape', 3), P(shape', 4)>>)
              /\ UNCHANGED <<codec, len>>
-PickMega == /\ stage = 0 /\ Purpose = "c06" /\ stage' = 3
-            /\ \E m \in MegaScenarios :
+RunMega == IF Thorough THEN {<<<<c, 0>>, 67826, <<"runs", r>>>> : c \in {"rle", "rle_hdr"}, r \in {67823, 67824}} ELSE {}
+PickMega == /\ stage = 0 /\ Purpose \in {"c06", "c02"} /\ stage' = 3
+            /\ \E m \in (IF Purpose = "c06" THEN MegaScenarios ELSE RunMega) :
                  /\ codec' = m[1] /\ len' = m[2] /\ shape' = m[3]
                  /\ PrintT(<<"SCEN", m[1][1], m[1][2], m[2], m[3][1], m[3][2], 0, 0, 0>>)
 Next == PickCodec \/ PickLen \/ PickShape \/ PickMega
@@ -144,5 +151,5 @@ Spec == Init /\ [][Next]_vars
 \* every leaf is a well-formed scenario
 TypeOK == /\ stage \in 0..3
           /\ stage = 3 => ((codec \in Codecs /\ len \in Lens(codec) /\ Applicable(codec, len, shape))
-                            \/ <<codec, len, shape>> \in MegaScenarios)
+                            \/ <<codec, len, shape>> \in (MegaScenarios \cup RunMega))
 =============================================================================
